@@ -366,6 +366,9 @@ package caldav
 //@   ensures G4: err != nil ==> okErr(err)
 //@   ensures G5: mutations == old(mutations)
 //@   ensures G6: wstatus(w) == 0 || wstatus(w) == 207
+//@   -- C10: a backend error for one href is answered inside the 207 for that href; the REPORT as a whole fails only before the
+//@   -- first backend call (undecodable data request), for a request naming none of the three property forms, or while the 207 is written
+//@   ensures G7: err != nil ==> gcoCalls == 0 || wstatus(w) == 207 || !(multiget.Prop != nil || multiget.AllProp != nil || multiget.PropName != nil)
 //@   loop 1 invariant I1a: mutations == old(mutations) && wstatus(w) == 0
 //@   loop 1 invariant I1b: (cap(resps) == 0 || fresh(resps)) && len(resps) == #i
 //@   loop 1 invariant I1c: gcoCalls >= 0 && (gcoCalls > 0 ==> gcoReq == &dataReq) && (#i > 0 ==> gcoCalls > 0)
@@ -474,6 +477,7 @@ package caldav
 //@   ensures F1: err == nil ==> fresh(resp) && oneHref(resp, co.Path)
 //@   ensures F2: err != nil ==> pfErr(err)
 //@   ensures F4: err == nil ==> formOK(propfind)
+//@   ensures F6: err != nil ==> !formOK(propfind)
 //@   ensures F3: mutations == old(mutations)
 //@   -- C10 / C05: typed properties are handed to the serialiser with the backend's values (prop form: at the position of the
 //@   -- requested element, under 200; an unset value is answered 404)
